@@ -136,6 +136,10 @@ def eval_case(case):
     # (the model of which y a stream yields is the digit protocol's; another way of drawing the exponent is held to everything above)
     if case.get("python") and all(k == 8 for k in reqs):
         RP = ref.pt_mul(Pp, y, 2)
+        y_alt = c07.model_sampling(answers, default, reverse=True)[1]
+        if L.unaff(rp_aff, 2) != RP and L.unaff(rp_aff, 2) == ref.pt_mul(Pp, y_alt, 2):
+            y = y_alt           # the digits are drawn most significant first: the property does not fix the order
+            RP = ref.pt_mul(Pp, y, 2)
         if L.unaff(rp_aff, 2) != RP:
             msgs.append("ciphertext is not [y]P for the y drawn from the random stream")
         if Q is not None:
